@@ -4,7 +4,7 @@
    group AND every filter that only mentions rollup columns are such predicates.  Gen/Derivable_gen.v and
    Gen/GranCompat_gen.v are `_is_measure_derivable` / `_is_granularity_compatible`, regenerated from /repo on every run. *)
 From Coq Require Import ZArith String List Bool.
-Require Import V.Base.PyLib V.Base.Calendar V.Base.CalendarFacts V.Model.Refresh V.Model.Preagg V.Proofs.C07_proofs V.Gen.Derivable_gen V.Gen.GranCompat_gen V.Proofs.C08_proofs.
+Require Import V.Base.PyLib V.Base.Calendar V.Base.CalendarFacts V.Model.Refresh V.Model.Preagg V.Proofs.C07_proofs V.Gen.Derivable_gen V.Gen.GranCompat_gen V.Model.Satisfy V.Gen.Satisfy_gen V.Proofs.C08_proofs.
 Import ListNotations.
 Open Scope Z_scope.
 
@@ -45,6 +45,21 @@ Theorem C08_derivable_sound : forall name agg filters measures cm,
   is_measure_derivable name agg filters measures cm = true ->
   filters = [] /\ In name measures /\ exists a, agg = Some a /\ (agg_exact a = true \/ (a = "avg"%string /\ cm <> None)).
 Proof. exact derivable_sound. Qed.
+
+(* THE MATCHER'S COMBINATION LOGIC, regenerated: Gen/Satisfy_gen.v holds the verdict of the real can_satisfy_query on 1920 scripted scenarios
+   (rollups with / without dimensions, time dimension, granularity; query dimensions inside / outside the rollup; metrics that are missing,
+   derivable, not derivable; compatible / incompatible / absent granularity; filter columns inside / outside the rollup, no filters),
+   extracted from preagg_matcher.py on every run by executing the method's AST (translator/gen_satisfy.py, fail closed, validated against
+   CPython).  The model `can_satisfy` gives the same verdict on every scenario ... *)
+Theorem C08_matcher_table : forallb satisfy_row_ok satisfy_rows = true.
+Proof. vm_compute. reflexivity. Qed.
+(* ... and a query the model admits only uses rollup columns: every requested dimension and every filter column is a dimension of the rollup
+   or its time dimension, every metric exists and passed the derivability test, and the granularity test was passed when both sides have one *)
+Theorem C08_matcher_sound : forall p qdims metrics qgran compatible fcols, can_satisfy p qdims metrics qgran compatible fcols = true ->
+  (forall d, In d qdims -> rollup_column p d = true) /\ (forall m, In m metrics -> m = (true, true)) /\
+  (forall cols c, fcols = Some cols -> In c cols -> rollup_column p c = true) /\
+  (forall qg pg, qgran = Some qg -> p_gran p = Some pg -> qg <> ""%string -> pg <> ""%string -> compatible = true).
+Proof. exact can_satisfy_sound. Qed.
 
 (* why nothing else may be routed (each was admitted by the matcher at the pinned commit) *)
 Example C08_median_refuted :
